@@ -1,4 +1,4 @@
-\* X07 quick: indexing.do_index restores the thread count (normal return and exception)
+\* X07 quick: indexing.do_index restores the thread count (normal return and exception); emits the table of users
 SPECIFICATION Spec
 CONSTANTS
   EnvOmp = {0}
@@ -30,6 +30,8 @@ PROPERTY StopSticky
 PROPERTY DoneIsFinal
 PROPERTY RaiseStops
 PROPERTY FlagPerProcess
+PROPERTY PbpOneThread
 ACTION_CONSTRAINT EmitTransition
+INVARIANT EmitUsers
 VIEW View
 CHECK_DEADLOCK FALSE
